@@ -323,6 +323,21 @@ Proof.
   cbn in I. repeat (destruct I as [I|I]; [discriminate I|]). exact I.
 Qed.
 
+(** The loop the sessions of Model/Term.v run ([Term.settle], entered by a foreground
+    launch or fg through [enter_wait] and resumed after every kernel event) IS the
+    oracle loop on the answers Term.v's own kernel model gives ([kreplies]: [next_status],
+    ECHILD when every child is reaped, else the call blocks): same session state up to
+    the [procs] field, which the oracle loop does not touch. *)
+Theorem C07_settle_is_oracle_wait : forall c gid pids v rest ow m g fuel kk kt w we status,
+  core_eq kk kt ->
+  match wait_o c fuel (kreplies fuel (procs kt)) kk gid pids w v rest ow m g we status with
+  | WReturned s' _ _ => st_eq s' (settle c fuel (waiting_st kt gid pids w v rest ow m g we))
+  | WBlocked s1 _ => st_eq s1 (settle c fuel (waiting_st kt gid pids w v rest ow m g we))
+  | WOutOfFuel => exists k1 w1 we1,
+      settle c fuel (waiting_st kt gid pids w v rest ow m g we) = waiting_st k1 gid pids w1 v rest ow m g we1
+  end.
+Proof. exact settle_is_wait_o. Qed.
+
 Print Assumptions C07_prompt_owner.
 Print Assumptions C07_owner_cases.
 Print Assumptions C07_bg_never_owner.
@@ -336,3 +351,4 @@ Print Assumptions C07_jobs_exact.
 Print Assumptions C07_wait_returns_settled.
 Print Assumptions C07_wait_gives_back_terminal.
 Print Assumptions C07_wait_fuel_suffices.
+Print Assumptions C07_settle_is_oracle_wait.
